@@ -666,7 +666,10 @@ class Grid:
         )
 
         # if any dims are chunked then we need dask
-        if isinstance(data_unpacked.data, Dask_Array):
+        # (a lazy partner component makes the padded array lazy as well)
+        if isinstance(data_unpacked.data, Dask_Array) or any(
+            isinstance(oc.data, Dask_Array) for oc in (other_component or {}).values()
+        ):
             dask = "parallelized"
         else:
             dask = "forbidden"
